@@ -88,6 +88,32 @@ def gen_mutants(G):
             elif k == 'ident' and t == 'false':
                 out.append((fid, g.src_path, line, 'false -> true', s0, e0, 'true'))
                 seen.add(key)
+            elif k == 'punct' and t == ';' and st[i - 1][1] in (')', '?') and os.environ.get('AUTOMUT_DELETE', '1') == '1':
+                # statement deletion: an expression statement `CALL(..);` / `CALL(..)?;` (not a `let`, `return`, assignment or macro)
+                j = i - 1
+                depth = 0
+                while j > b:
+                    if st[j][1] in (')', ']', '}'):
+                        depth += 1
+                    elif st[j][1] in ('(', '[', '{'):
+                        if depth == 0:
+                            break
+                        depth -= 1
+                    elif st[j][1] == ';' and depth == 0:
+                        break
+                    elif st[j][1] == '=>' and depth == 0:
+                        j = None
+                        break
+                    j -= 1
+                if j is not None:
+                    stmt = st[j + 1:i]
+                    words = [x[1] for x in stmt]
+                    if stmt and words[0] not in ('let', 'return', 'break', 'continue', 'if', 'match', 'for', 'while', 'loop') and '!' not in words[:3] \
+                            and not any(w in ('=', '+=', '-=', '*=') for w in words if True) and (g.src_path, stmt[0][2], 'del') not in seen:
+                        seen.add((g.src_path, stmt[0][2], 'del'))
+                        out.append((fid, g.src_path, line, 'statement `%s` deleted' % src[stmt[0][2]:e0][:50].replace('\n', ' '), stmt[0][2], e0, ''))
+                if t == ';' and st[i - 1][1] == '?':
+                    pass
             elif k == 'punct' and t == '?' and i + 1 < len(st) and st[i + 1][1] == ';':
                 # statement `X?;` -> `let _ = X;` : find statement start
                 j = i - 1
@@ -107,6 +133,105 @@ def gen_mutants(G):
                     out.append((fid, g.src_path, line, 'error of `%s` swallowed' % src[s_stmt:s0][:40], s_stmt, e0, 'let _ = ' + src[s_stmt:s0]))
                     seen.add(key)
             i += 1
+        out += structural_mutants(fid, g, src, st, b)
+    # a slice and the whole function it is cut from cover the same source text: keep one mutant per edit
+    uniq = {}
+    for m in out:
+        uniq.setdefault((m[1], m[4], m[5], m[6]), m)
+    return list(uniq.values())
+
+
+def _block_statements(st, open_i):
+    """statements of the block opened at st[open_i] (`{`): list of (first_tok_index, last_tok_index) ; None when the block is not a statement block"""
+    close = rtok.match_close(st, open_i)
+    stmts = []
+    i = open_i + 1
+    start = i
+    depth = 0
+    while i < close:
+        t = st[i][1]
+        if t in ('(', '[', '{'):
+            j = rtok.match_close(st, i)
+            if t == '{' and depth == 0:
+                # a block-like statement ends at its `}` unless followed by `else`, `.`, `?`, `;`, or an operator
+                nxt = st[j + 1][1] if j + 1 < close else None
+                first = st[start][1]
+                if first in ('if', 'match', 'for', 'while', 'loop', 'unsafe') and nxt not in ('else', '.', '?', ';') :
+                    stmts.append((start, j))
+                    start = j + 1
+            i = j + 1
+            continue
+        if t == ';' and depth == 0:
+            stmts.append((start, i))
+            start = i + 1
+        elif t == '=>' and depth == 0:
+            return None    # match arms, struct literal etc.: not a statement block
+        elif t == ',' and depth == 0:
+            return None
+        i += 1
+    return stmts
+
+
+def structural_mutants(fid, g, src, st, b):
+    out = []
+    if os.environ.get('AUTOMUT_STRUCT', '1') != '1':
+        return out
+    # ---- swap adjacent statements (order of effects)
+    for i in range(b, len(st)):
+        if st[i][1] != '{':
+            continue
+        try:
+            stmts = _block_statements(st, i)
+        except Exception:
+            continue
+        if not stmts or len(stmts) < 2:
+            continue
+        for (a0, a1), (b0, b1) in zip(stmts, stmts[1:]):
+            wa = st[a0][1]
+            wb = st[b0][1]
+            if wa in ('let', 'return', 'break', 'continue') or wb in ('let', 'return', 'break', 'continue'):
+                continue
+            ta = src[st[a0][2]:st[a1][3]]
+            tb = src[st[b0][2]:st[b1][3]]
+            if re.match(r'^(debug|info|warn|error|trace)!', ta) or re.match(r'^(debug|info|warn|error|trace)!', tb):
+                continue
+            mid = src[st[a1][3]:st[b0][2]]
+            line = src.count('\n', 0, st[a0][2]) + 1
+            out.append((fid, g.src_path, line, 'swap statements `%s` <-> `%s`' % (' '.join(ta.split())[:30], ' '.join(tb.split())[:30]),
+                        st[a0][2], st[b1][3], tb + mid + ta))
+    # ---- swap two arguments of a call when both are `&x.y`-like or plain identifiers of the same shape
+    for i in range(b, len(st) - 1):
+        if st[i][1] == '(' and st[i - 1][0] == 'ident' and st[i - 2][1] != '!' and st[i - 1][1] not in ('if', 'while', 'match', 'for', 'Some', 'Ok', 'Err'):
+            c = rtok.match_close(st, i)
+            from .vacuity import _split_top
+            parts = _split_top(st, i + 1, c)
+            if len(parts) < 2 or len(parts) > 5:
+                continue
+            texts = [src[st[a][2]:st[e - 1][3]] for a, e in parts]
+
+            def shape(t):
+                t = t.strip()
+                if re.match(r'^&self\.\w+$', t):
+                    return 'selfref'
+                if re.match(r'^&\w+$', t):
+                    return 'ref'
+                if re.match(r'^\w+$', t) and not t[0].isdigit() and t not in ('self', 'true', 'false'):
+                    return 'id'
+                if re.match(r'^&\w+\.\w+$', t):
+                    return 'fieldref'
+                return None
+            for x in range(len(parts)):
+                for y in range(x + 1, len(parts)):
+                    if shape(texts[x]) and shape(texts[x]) == shape(texts[y]) and texts[x] != texts[y]:
+                        ax, ex = parts[x]
+                        ay, ey = parts[y]
+                        s0, e0 = st[ax][2], st[ey - 1][3]
+                        rep = texts[y] + src[st[ex - 1][3]:st[ay][2]] + texts[x]
+                        rep = src[s0:s0] + rep
+                        # rebuild: [x][between][y] -> [y][between][x]
+                        rep = texts[y] + src[st[ex - 1][3]:st[ay][2]] + texts[x]
+                        line = src.count('\n', 0, s0) + 1
+                        out.append((fid, g.src_path, line, 'swap arguments `%s` <-> `%s` of %s' % (texts[x].strip(), texts[y].strip(), st[i - 1][1]), s0, e0, rep))
     return out
 
 
@@ -120,7 +245,7 @@ def run_one(m, known):
         open(p, 'w').write(src[:s0] + rep + src[e0:])
         try:
             G = driver.assemble(repo=wd)
-        except (AnchorLost, SpecError, driver.ToolError) as e:
+        except (AnchorLost, SpecError, driver.ToolError, rtok.LexError) as e:
             return (m, 'undecided', str(e)[:80])
         res = driver.run_verus(G, wd, threads=4)
         failed, tool, _ = driver.classify(G, res)
@@ -136,12 +261,15 @@ def main(argv):
     mx = None
     only = None
     workers = 4
+    kind = None
     i = 0
     while i < len(argv):
         if argv[i] == '--max':
             mx = int(argv[i + 1]); i += 2; continue
         if argv[i] == '--only':
             only = argv[i + 1]; i += 2; continue
+        if argv[i] == '--kind':
+            kind = argv[i + 1]; i += 2; continue
         if argv[i] == '--workers':
             workers = int(argv[i + 1]); i += 2; continue
         i += 1
@@ -149,6 +277,8 @@ def main(argv):
     ms = gen_mutants(G)
     if only:
         ms = [m for m in ms if only in m[0]]
+    if kind:
+        ms = [m for m in ms if kind in m[3]]
     random.Random(int(os.environ.get('VERIF_SEED', '0') or 0)).shuffle(ms)
     if mx:
         ms = ms[:mx]
